@@ -7,6 +7,7 @@
  * hex digit / whitespace / sign must fail without touching the output slot.
  */
 #include "vf.h"
+#include <errno.h>
 
 static int fmt_hex(uint64_t h, char *out) { /* lowercase, unpadded */
     char tmp[17];
@@ -23,19 +24,31 @@ static int fmt_hex(uint64_t h, char *out) { /* lowercase, unpadded */
 static void case_tostr(uint64_t h, int sz) {
     vf_case("tostr %016" PRIx64 " %d", h, sz);
     uint64_t key = vf_mix(h) ^ vf_mix((uint64_t)sz + 77);
-    unsigned char *buf = vf_buf_new((size_t)sz, 0xCC);
+    /* the destination starts at every alignment 0..7 in turn (the end of the buffer stays exact): a formatter that stores whole
+     * words behaves differently on an unaligned destination; and errno holds ERANGE on every second call: the result may not
+     * depend on what an earlier, unrelated call left there */
+    static unsigned rot;
+    int off = (int)(rot++ & 7);
+    unsigned char *base = vf_buf_new((size_t)sz + (size_t)off, 0xCC), *buf = base + off;
+    errno = (rot & 8) ? ERANGE : 0;
     H3Error e = 99;
     if (VF_GUARD()) {
         e = h3ToString(h, (char *)buf, (size_t)sz);
     } else {
         vf_assert_report("h3ToString", key);
         VF_UNGUARD();
-        vf_buf_free(buf);
+        vf_buf_free(base);
         return;
     }
     VF_UNGUARD();
     vf_add("tostr.calls", 1);
-    if (vf_buf_check(buf)) vf_violation("overrun", "h3ToString", key, "", "canary around %d-byte buffer damaged", sz);
+    if (vf_buf_check(base)) vf_violation("overrun", "h3ToString", key, "", "canary around %d-byte buffer damaged", sz);
+    for (int i = 0; i < off; i++)
+        if (base[i] != 0xCC) {
+            vf_violation("touched", "h3ToString", key, "", "byte %d before the start of the buffer was modified", i - off);
+            break;
+        }
+    if (off) vf_add("tostr.unaligned_destinations", 1);
     char want[17];
     int n = fmt_hex(h, want);
     if (sz < 17) {
@@ -71,17 +84,24 @@ static void case_tostr(uint64_t h, int sz) {
             memcpy(s, want, (size_t)n + 1);
             uint64_t *out = vf_buf_new(8, 0);
             *out = 0x5555555555555555ULL;
-            H3Error e2 = stringToH3(s, out);
-            vf_add("roundtrip", 1);
-            if (e2 != E_SUCCESS || *out != h)
-                vf_violation("roundtrip", "stringToH3", key, "", "stringToH3(\"%s\") -> rc=%u value=%016" PRIx64 ", expected %016" PRIx64, want, e2, *out, h);
+            /* twice: with errno clear and with errno = ERANGE left behind by some earlier call (e.g. an over-long parse) */
+            for (int pass = 0; pass < 2; pass++) {
+                *out = 0x5555555555555555ULL;
+                errno = pass ? ERANGE : 0;
+                H3Error e2 = stringToH3(s, out);
+                vf_add("roundtrip", 1);
+                if (e2 != E_SUCCESS || *out != h)
+                    vf_violation("roundtrip", "stringToH3", key ^ (uint64_t)pass, "", "stringToH3(\"%s\") %s-> rc=%u value=%016" PRIx64 ", expected %016" PRIx64, want,
+                                 pass ? "with errno = ERANGE on entry " : "", e2, *out, h);
+            }
+            errno = 0;
             if (n == 16 || (h >> 63)) vf_add("roundtrip.16digit_or_highbit", 1);
             vf_buf_free(s);
             vf_buf_free(out);
         }
     }
     vf_distinct(key);
-    vf_buf_free(buf);
+    vf_buf_free(base);
     vf_sample("h3ToString(%016" PRIx64 ", sz=%d) -> rc=%u", h, sz, e);
 }
 
@@ -104,6 +124,8 @@ static void case_parse(const unsigned char *bytes, int len) {
     const uint64_t SENT = 0xA5A5A5A55A5A5A5AULL;
     *out = SENT;
     H3Error e = 99;
+    static unsigned prot;
+    errno = (prot++ & 1) ? ERANGE : 0;
     if (VF_GUARD()) {
         e = stringToH3(s, out);
     } else {
